@@ -200,6 +200,20 @@ UNITS = [
     ("controller.general_range", _main_unit(False)),
     ("controller.run_copies_state", run_copies_initial_state),
 ]
+
+
+def _stepper_units():
+    """the callee contract of the controller harness -- stepper(state, t, t_next) performs max(1, round((t_next-t)/dt))
+    applications of the one-step map at t + j*dt, returns t + steps*dt and adds steps to info['steps'] -- is the C06
+    loop contract of the fixed steppers (python and numba) and of the Adams-Bashforth steppers; re-checked here because
+    the step / time accounting of this property rests on it"""
+    from . import C06
+
+    keep = ("base.fixed_stepper", "numba.fixed_stepper", "adams_bashforth.python", "adams_bashforth.numba")
+    return [(f"stepper_contract.{n}", f) for n, f in C06.UNITS if n in keep]
+
+
+UNITS += _stepper_units()
 TRUSTED = ["ghost step counter n and recursion iterate(n) (conservative definitions)", "profiling / datetime / logging statements are interpreted with opaque or fresh values (they never reach a branch that matters: proved by exploring both outcomes)"]
 ASSUMPTIONS = ["exact real arithmetic for times; round() is banker's rounding as in CPython", "MPI runs (mpi_run=True) are not covered"]
 NOT_COVERED = ["bit-identity of the state for autonomous equations follows from state = step^N(initial) independent of the tracker returns; it is not a separate obligation", "adaptive steppers"]
